@@ -315,6 +315,11 @@ def run(ctx):
                     tgt_ = sy.local(st["p"]["l"])
                     if any(isinstance(x, tuple) and x and x[0] == "call" and sym_is_call(x, callee_method_name(ecall)) for x in sym_walk(tgt_)) and strip_sym(tgt_)[0] == "field":
                         through.append((i_, strip_sym(tgt_)[2]))
+                elif st["k"] == "assign" and (st["p"].get("pr") or [None])[0] == "*" and len(st["p"]["pr"]) == 2 and isinstance(st["p"]["pr"][1], dict) and "f" in st["p"]["pr"][1] and i_ in b.reachable_after(ecall.bb):
+                    # `entry.1 = unit; entry.2 = Some(desc);` — the same writes spelled as field assignments through the reference
+                    base_ = strip_sym(sy.local(st["p"]["l"]))
+                    if sym_is_call(base_, callee_method_name(ecall)):
+                        through.append((i_, str(st["p"]["pr"][1]["f"])))
             flds = {f_ for _, f_ in through}
             okm = len(flds) >= 2 and all(b.dominates(ecall.bb, i_) for i_, _ in through)
             chk.ob("C11.d", f"{rt.path} [a repeated description replaces the stored one]", okm, f"unit and description are written through the entry (fields {sorted(flds)}) whether or not the name was known" if okm else "the stored unit / description are only set when the name is first seen: a later describe of the same name is ignored, and clients that connect afterwards are greeted with the outdated metadata", ecall.loc(), nontrivial=False)
